@@ -2,12 +2,16 @@ use crate::run::Suite;
 use std::path::Path;
 
 pub mod c21;
+pub mod bookgen;
 pub mod c24;
+pub mod c25;
+pub mod xmltree;
 
 pub fn for_property(p: &str) -> Vec<Suite> {
     match p {
         "C21" => c21::suites(),
         "C24" => c24::suites(),
+        "C25" => c25::suites(),
         _ => vec![],
     }
 }
